@@ -23,12 +23,12 @@ theorem genesis_translated_pinned : Irismod.Gen.PureGenesis.translated =
      "HtlcInitGenesis_cond_6(supply_IncomingSupply,limit_Limit)",
      "HtlcInitGenesis_cond_7(supply_IncomingSupply,supply_CurrentSupply,limit_Limit)",
      "HtlcInitGenesis_cond_8(supply_OutgoingSupply,limit_Limit)",
-     "MtInitGenesis_mtSequence_1(mtSequence)",
      "MtInitGenesis_call_SetDenomSequence_1_arg1(read_len_data_Collections)",
+     "MtInitGenesis_mtSequence_1(mtSequence)",
      "MtInitGenesis_call_SetMTSequence_1_arg1(mtSequence)",
      "CoinswapInitGenesis_call_setSequence_1_arg1(genState_Sequence)",
-     "FarmInitGenesis_call_SetSequence_1_arg1(data_Sequence)",
-     "FarmInitGenesis_cond_1(read_ctx_BlockHeight,pool_EndHeight)"] := rfl
+     "FarmInitGenesis_cond_1(read_ctx_BlockHeight,pool_EndHeight)",
+     "FarmInitGenesis_call_SetSequence_1_arg1(data_Sequence)"] := rfl
 
 /-- HTLC `InitGenesis`: a stored supply record aborts the import exactly when one of the six comparisons the model's
 `checkSupply` makes fails (recorded incoming / outgoing ≠ the tallies of the open transfers; current, incoming, their
